@@ -546,6 +546,10 @@ pub fn run(args: &Args) -> i32 {
     if prop == "C07" {
         constants_leg(&run);
     }
+    if prop == "C02" && run.quick() {
+        run.put("exhaustive", json!(false));
+        run.put("exhaustive_note", json!("quick tier: at most 10 EDBs per program, taken at a fixed stride from the complete list; the thorough tier runs the complete list"));
+    }
     run.finish()
 }
 
